@@ -111,7 +111,9 @@ fn plan(seed: u64, rng: &mut StdRng, k: usize) -> Plan {
         drop_permille: if mode == "lossy" { [10u32, 50, 150][rng.random_range(0..3)] } else if by_count { [50u32, 150, 300][rng.random_range(0..3)] } else { 0 },
         vanish_after_server_packets: if by_count { Some(rng.random_range(1..expected + 6)) } else { None },
         slow_tcp: false,
-        dup_permille: if mode != "vanish" { [0u32, 0, 30, 150][rng.random_range(0..4)] } else { 0 },
+        // duplication is OFF in the registered check (set VERIF_DC_DUP=1 to turn it on): the copies can only be sent from another
+        // port, and runs with them stall until the idle timeout - not classified (DESIGN.md 10.4), so not part of the verdict
+        dup_permille: { let d = if mode != "vanish" { [0u32, 0, 30, 150][rng.random_range(0..4)] } else { 0 }; if std::env::var_os("VERIF_DC_DUP").is_some() { d } else { 0 } },
         drop_fin: if mode != "vanish" && rng.random_bool(0.4) { Some((["c2s", "s2c"][rng.random_range(0..2)].to_string(), rng.random_range(1..4))) } else { None },
         outage: if mode == "lossy" && rng.random_bool(0.5) { let f = [500u64, 3_000, 50_000][rng.random_range(0..3)]; Some((["c2s", "s2c", "both"][rng.random_range(0..3)].to_string(), f, f + [2_000u64, 300_000, 4_000_000][rng.random_range(0..3)])) } else { None },
         vanish_at_us: if mode == "vanish" && !by_count { [0u64, 700, 3_000, 200_000][rng.random_range(0..4)] } else { 0 },
